@@ -1,8 +1,20 @@
 package main
 
 import (
+	"os"
+	"runtime/pprof"
+
 	"seehuhn.de/go/sfnt/verifharness/c09"
 	"seehuhn.de/go/sfnt/verifharness/vlib"
 )
 
-func main() { vlib.Main(c09.Gen, c09.RunCase) }
+func main() {
+	if p := os.Getenv("C09_CPUPROFILE"); p != "" {
+		f, err := os.Create(p)
+		if err == nil {
+			_ = pprof.StartCPUProfile(f)
+			defer pprof.StopCPUProfile()
+		}
+	}
+	vlib.Main(c09.Gen, c09.RunCase)
+}
